@@ -38,6 +38,13 @@ class Exists:
         self.witnesses = witnesses  # optional explicit candidates (list of idx tuples)
 
 
+class AnyOf:
+    """Disjunction of existential / leaf formulas (positive positions only, never assumed)."""
+
+    def __init__(self, *parts):
+        self.parts = list(parts)
+
+
 class All:
     def __init__(self, *parts):
         self.parts = [p for p in parts]
@@ -54,7 +61,21 @@ def _bounds(idx, dims):
 
 
 def _is_leaf(f):
-    return not isinstance(f, (Forall, Exists, All, Imp))
+    return not isinstance(f, (Forall, Exists, All, Imp, AnyOf))
+
+
+def _exists_alternatives(c, f):
+    cands = list(f.witnesses or [])
+    if not f.witnesses:
+        cands += list(c.index_pool.get(len(f.dims), []))
+    alts = []
+    for w in cands:
+        w = tuple(w)
+        body = f.fn(*w)
+        if not _is_leaf(body):
+            raise SpecError("Exists body must be quantifier free")
+        alts.append(and_(_bounds(w, f.dims), body))
+    return alts
 
 
 # ------------------------------------------------------------------ prove
@@ -87,20 +108,21 @@ def _strip(c, f, hyps, goals, name):
         body = f.fn(*sk)
         _strip(c, body, hyps + [_bounds(sk, f.dims)], goals, name)
     elif isinstance(f, Exists):
-        cands = list(f.witnesses or [])
-        if not f.witnesses:
-            cands += list(c.index_pool.get(len(f.dims), []))
-        if not cands:
+        alts = _exists_alternatives(c, f)
+        if not alts:
             goals.append((name, hyps, False))
             return
-        alts = []
-        for w in cands:
-            w = tuple(w)
-            body = f.fn(*w)
-            if not _is_leaf(body):
-                raise SpecError("Exists body must be quantifier free")
-            alts.append(and_(_bounds(w, f.dims), body))
         goals.append((name, hyps, or_(*alts) if len(alts) > 1 else alts[0]))
+    elif isinstance(f, AnyOf):
+        alts = []
+        for p in f.parts:
+            if isinstance(p, Exists):
+                alts += _exists_alternatives(c, p)
+            elif _is_leaf(p):
+                alts.append(p)
+            else:
+                raise SpecError("AnyOf parts must be Exists or quantifier free")
+        goals.append((name, hyps, or_(*alts) if len(alts) > 1 else (alts[0] if alts else False)))
     else:
         goals.append((name, hyps, f))
 
@@ -180,6 +202,12 @@ def evaluate(f):
             if not ok:
                 return False, {"index": idx, "inner": w}
         return True, None
+    if isinstance(f, AnyOf):
+        for p in f.parts:
+            ok, _ = evaluate(p)
+            if ok:
+                return True, None
+        return False, {"anyof": "no alternative holds"}
     if isinstance(f, Exists):
         for idx in itertools.product(*[range(int(n)) for n in f.dims]):
             ok, _ = evaluate(f.fn(*idx))
